@@ -331,7 +331,19 @@ def case_xoprob(ctx, c):
     kw = {}
     if hist == 1:
         kw = dict(vrnt_genpos=numpy.sort(g.uniform(0, 3, nq)), vrnt_xoprob=g.uniform(0, 0.5, nq))
-    pg = DensePhasedGenotypeMatrix(numpy.zeros((2, 2, nq), dtype="int8"), vrnt_chrgrp=qch, vrnt_phypos=qph, **kw)
+    # the panel as the user holds it: sorted; listed chromosome by chromosome but not by position within them; or in any order -
+    # group_vrnt() has to bring it into (chromosome, position) order before probabilities are assigned
+    lay = int(g.integers(0, 5))
+    if lay in (1, 2):
+        o_ = numpy.concatenate([g.permutation(numpy.flatnonzero(qch == ch_)) for ch_ in numpy.unique(qch)])
+    elif lay == 3:
+        o_ = g.permutation(nq)
+    else:
+        o_ = numpy.arange(nq)
+    if lay in (1, 2, 3):
+        icls += "/panel not stored in position order"
+        kw = {k_: v_[o_] for k_, v_ in kw.items()}
+    pg = DensePhasedGenotypeMatrix(numpy.zeros((2, 2, nq), dtype="int8"), vrnt_chrgrp=qch[o_], vrnt_phypos=qph[o_], **kw)
     pg.group_vrnt()
     if hist >= 2:
         other = StandardGeneticMap(mch[ix], mph[ix], mge[ix] * 2.5 + 0.1) if std else ExtendedGeneticMap(mch[ix], mph[ix], mph[ix], mge[ix] * 2.5 + 0.1)
@@ -353,7 +365,8 @@ def case_xoprob(ctx, c):
     exp = 0.5 * (1.0 - numpy.exp(-2.0 * d)) if hal else 0.5 * numpy.tanh(2.0 * d)
     st = pop.chrom_starts(qch); exp[st] = 0.5
     got = numpy.asarray(pg.vrnt_xoprob, dtype=float)
-    ok = got.shape == exp.shape and bool(numpy.all(got[st] == 0.5)) and float(numpy.max(numpy.abs(got - exp))) <= 1e-9
+    ok = got.shape == exp.shape and bool(numpy.all(got[st] == 0.5)) and float(numpy.max(numpy.abs(got - exp))) <= 1e-9 and \
+        numpy.array_equal(pg.vrnt_chrgrp, qch) and numpy.array_equal(pg.vrnt_phypos, qph)
     ctx.check("C02.xoprob", ok, "interp_xoprob", "vrnt_xoprob == map function of consecutive distances, exactly 0.5 at chromosome starts", icls,
               witness={"map": [mch[ix], mph[ix], mge[ix]], "query": [qch, qph], "got": got, "expected": exp}, coords=[c, "xoprob"])
 
